@@ -10,8 +10,8 @@
 #define SC_OK(a) (sval(a) < N_())
 
 void h_sc_add(void) {
-    INPUT(secp256k1_scalar, a); INPUT(secp256k1_scalar, b); INPUT(secp256k1_scalar, x); INPUT(unsigned, ov);
-    secp256k1_scalar r; int o; wide s, n = N_(), two256 = W(1) << 256;
+    INPUT(secp256k1_scalar, a); INPUT(secp256k1_scalar, b); INPUT(secp256k1_scalar, x); INPUT(unsigned, ov); INPUT(unsigned, amode);
+    secp256k1_scalar r, *pr; int o; wide s, n = N_(), two256 = W(1) << 256;
     /* check_overflow: any 256-bit pattern */
     __CPROVER_assert(secp256k1_scalar_check_overflow(&x) == (sval(&x) >= n), "C05 scalar_check_overflow: value >= n");
     /* reduce: subtracts overflow * n modulo 2^256 */
@@ -24,30 +24,41 @@ void h_sc_add(void) {
         if (ov) REACH("scalar_reduce overflow");
     }
     /* add */
-    __CPROVER_assume(SC_OK(&a) && SC_OK(&b));
-    o = secp256k1_scalar_add(&r, &a, &b);
+    /* aliasing as used by the library: 0 all distinct, 1 r == a (s += t), 2 r == b, 3 a == b (doubling), 4 r == a == b */
+    __CPROVER_assume(SC_OK(&a) && SC_OK(&b) && amode <= 4);
+    if (amode >= 3) b = a;
     s = sval(&a) + sval(&b);
+    pr = (amode == 1 || amode == 4) ? &a : (amode == 2 ? &b : &r);
+    o = secp256k1_scalar_add(pr, &a, amode == 4 ? &a : (amode == 3 ? &a : &b));
+    r = *pr;
     __CPROVER_assert(sval(&r) == sa_mod_n_2(s), "C05 scalar_add: r == (a + b) mod n");
     __CPROVER_assert(o == (s >= n), "C05 scalar_add: return value is the overflow flag a + b >= n");
     if (s >= two256) REACH("scalar_add carry out of 2^256");
     if (s >= n && s < two256) REACH("scalar_add overflow without carry");
     if (s == n) REACH("scalar_add sum exactly n");
+    if (amode == 1 && s >= n) REACH("scalar_add r == a with overflow");
+    if (amode == 2) REACH("scalar_add r == b");
+    if (amode == 4 && s >= two256) REACH("scalar_add r == a == b with carry");
 }
 void h_sc_neg(void) {
-    INPUT(secp256k1_scalar, a); INPUT(int, flag);
-    secp256k1_scalar r; int c; wide n = N_(), neg;
+    INPUT(secp256k1_scalar, a); INPUT(int, flag); INPUT(_Bool, alias);   /* alias: scalar_negate(&s, &s), scalar_half(&s, &s) */
+    secp256k1_scalar r, a0, t; int c; wide n = N_(), neg, va;
     __CPROVER_assume(SC_OK(&a));
+    a0 = a; va = sval(&a);
     neg = sval(&a) == 0 ? W(0) : n - sval(&a);
-    secp256k1_scalar_negate(&r, &a);
-    __CPROVER_assert(sval(&r) == neg, "C05 scalar_negate: r == -a mod n");
     __CPROVER_assert(secp256k1_scalar_is_high(&a) == (sval(&a) > (n >> 1)), "C05 scalar_is_high: a > n/2");
+    t = a;
+    if (alias) { secp256k1_scalar_negate(&t, &t); r = t; } else secp256k1_scalar_negate(&r, &a);
+    __CPROVER_assert(sval(&r) == neg, "C05 scalar_negate: r == -a mod n");
     __CPROVER_assume(flag == 0 || flag == 1);
     r = a;
     c = secp256k1_scalar_cond_negate(&r, flag);
     __CPROVER_assert(sval(&r) == (flag ? neg : sval(&a)), "C05 scalar_cond_negate: r == flag ? -r : r (mod n)");
     __CPROVER_assert(c == (flag ? -1 : 1), "C05 scalar_cond_negate: returns -1 if negated, 1 otherwise");
-    secp256k1_scalar_half(&r, &a);
-    __CPROVER_assert(sval(&r) < n && (sval(&r) + sval(&r) == sval(&a) || sval(&r) + sval(&r) == sval(&a) + n), "C05 scalar_half: r < n and 2 r == a (mod n)");
+    t = a0;
+    if (alias) { secp256k1_scalar_half(&t, &t); r = t; } else secp256k1_scalar_half(&r, &a0);
+    __CPROVER_assert(sval(&r) < n && (sval(&r) + sval(&r) == va || sval(&r) + sval(&r) == va + n), "C05 scalar_half: r < n and 2 r == a (mod n)");
+    if (alias) REACH("scalar_negate / scalar_half in place");
     if (flag && sval(&a) == 0) REACH("scalar_cond_negate of zero");
     if (sval(&a) == n - 2) REACH("scalar_half largest odd");
     if (sval(&a) == (n >> 1) + 1) REACH("scalar_is_high boundary");
